@@ -17,10 +17,19 @@ def dim_names(fmt):
     return list(laspy.PointFormat(fmt).dimension_names)
 
 
-def gen_extra(rng):
-    """extra dimensions incl. scaled 64-bit and multi-element scaled ones"""
+def gen_extra(rng, src=None, tgt=None):
+    """extra dimensions incl. scaled 64-bit and multi-element scaled ones; some named like a standard dimension of other
+    point formats (one that neither the source nor the target format has, so it stays an extra dimension)"""
+    import laspy
     from laspy import ExtraBytesParams
+    from laspy.point import dims as _dims
     out = []
+    foreign = []
+    if src is not None:
+        have = set()
+        for f_ in (src, tgt):
+            have |= set(laspy.PointFormat(f_).dimension_names) | set(laspy.PointFormat(f_).dtype().names)
+        foreign = sorted(nm for nm in _dims.DIMENSIONS_TO_TYPE if nm not in have)
     for i in range(rng.choice([0, 0, 1, 2])):
         base = rng.choice(["u1", "i2", "u4", "i8", "u8", "f4", "f8"])
         k = rng.choice([1, 1, 2, 3])
@@ -29,7 +38,10 @@ def gen_extra(rng):
         if rng.random() < 0.5:
             kw["scales"] = np.array([rng.choice([0.5, 0.01, 2.0, 1.0]) for _ in range(k)])
             kw["offsets"] = np.array([rng.choice([0.0, 10.0, -3.5, 100.0]) for _ in range(k)])
-        out.append(ExtraBytesParams(name=f"e{i}", type=t, **kw))
+        name = f"e{i}"
+        if foreign and rng.random() < 0.3:
+            name = foreign.pop(rng.randrange(len(foreign)))
+        out.append(ExtraBytesParams(name=name, type=t, **kw))
     return out
 
 
@@ -54,7 +66,8 @@ def run(ck):
         cur = ck.rng.choice([m for m in (1, 2, 3, 4) if src in c07.SPEC_COMPAT[m]])
         req = ck.rng.choice([None, None, 1, 2, 3, 4])
         n = ck.rng.choice([0, 1, 3, 6])
-        params = gen_extra(ck.rng)
+        params = gen_extra(ck.rng, src, tgt)
+        ck.count("extra_named_like_foreign_standard_dim", sum(1 for p in params if not p.name.startswith("e") or len(p.name) > 2))
         evlrs = fio.rand_vlrs(ck.rng, True, 1) if cur >= 4 else None
         in_range = ck.rng.random() < 0.55
         src_vlrs = fio.rand_vlrs(ck.rng, False, 1)
@@ -140,6 +153,9 @@ def run(ck):
             if a.tobytes() != b.tobytes() and not (a.dtype != b.dtype and np.array_equal(a, b)):
                 ck.fail(f"common dimension {d} changed: {a.tolist()[:4]} -> {b.tolist()[:4]}", dict(inp, dim=d))
         for p in params:
+            if p.name not in (out.points.array.dtype.names or ()):
+                ck.fail(f"extra dimension {p.name} ({p.type}) is missing from the converted records", dict(inp, dim=p.name, finding_key="C12:extra:missing"))
+                continue
             a, b = las.points.array[p.name], out.points.array[p.name]
             if a.tobytes() != b.tobytes():
                 ck.fail(f"extra dimension {p.name} ({p.type}, scaled={p.scales is not None}) changed: stored {a.tolist()[:3]} -> {b.tolist()[:3]}",
